@@ -77,7 +77,7 @@ def oas_props(draw):
             out.append(dict(out[-1]))        # identical property: the repeat record and value-list reuse become possible
             continue
         name = draw(st.sampled_from(["P", "prop_a", "S_GDS_PROPERTY", "x" * 20, "A1", "prop_a", "Q"]))
-        vals = [draw(prop_c02.oas_value()) for _ in range(draw(st.sampled_from([0, 1, 1, 2, 3, 16])))]
+        vals = [draw(prop_c02.oas_value()) for _ in range(draw(st.sampled_from([0, 1, 1, 2, 3, 14, 15, 16])))]
         vals = [[v[0], v[1] if v[0] != "r" else float(v[1])] for v in vals]
         if name == "S_GDS_PROPERTY":
             vals = [["u", draw(st.sampled_from([0, 1, 65535]))], ["s", (draw(st.text(alphabet="abc XYZ09", min_size=1, max_size=5)).encode("ascii") + b"\0").hex()]]
